@@ -642,6 +642,21 @@ func (env *specEnv) call(n *SCall) (TV, error) {
 			return TV{}, err
 		}
 		return TV{fmt.Sprintf("(= (i-tag %s) %d)", a.T, S.Tag(T)), "Bool", nil}, nil
+	case "streq", "strord":
+		a, err := env.Term(n.Args[0])
+		if err != nil {
+			return TV{}, err
+		}
+		a = env.view(a)
+		if n.Fn == "strord" {
+			return TV{fmt.Sprintf("(strord %s)", a.T), "Int", intT()}, nil
+		}
+		b, err := env.Term(n.Args[1])
+		if err != nil {
+			return TV{}, err
+		}
+		b = env.view(b)
+		return TV{fmt.Sprintf("(streq %s %s)", a.T, b.T), "Bool", nil}, nil
 	case "deref":
 		a, err := env.Term(n.Args[0])
 		if err != nil {
